@@ -51,6 +51,18 @@ Proof. split; reflexivity. Qed.
 Lemma same_store_child : forall s tid t, same_store s (child_trace s tid t).
 Proof. intros. unfold child_trace. destruct (t_subguard t); split; reflexivity. Qed.
 
+(* the state the up-to-date check sees: after the deps ran *)
+Definition pre_state (m : mode) (now : N) (t : task) (s : state) : state := with_fs s (deps_fs m now t (fs s)).
+
+Lemma same_store_pre : forall m now t s, same_store s (pre_state m now t s).
+Proof. split; reflexivity. Qed.
+
+Lemma deps_fs_none : forall m now t f, t_dep t = None -> deps_fs m now t f = f.
+Proof. intros m now t f E. unfold deps_fs, dep_write. rewrite E. now destruct m. Qed.
+
+Lemma pre_state_none : forall m now t s, t_dep t = None -> pre_state m now t s = s.
+Proof. intros. unfold pre_state. rewrite deps_fs_none by auto. apply with_fs_id. Qed.
+
 Section Safe.
   Variable matchb : string -> path -> bool.
   Variable H : string -> string.
@@ -203,10 +215,10 @@ Section Safe.
   Lemma run_task_summary : forall now s m tid t o s' r,
     t_sources t <> [] -> t_method t <> NoMethod ->
     (m = Run \/ m = Force \/ m = Dry) ->
-    run_task matchb H Hx v now s m tid t o = (s', r) ->
+    run_task_core matchb H Hx v now s m tid t o = (s', r) ->
     run_summary s m t s' r.
   Proof.
-    intros now s m tid t o s' r Hsrc Hm Hmode E. unfold run_task in E.
+    intros now s m tid t o s' r Hsrc Hm Hmode E. unfold run_task_core in E.
     set (dry := match m with Dry => true | _ => false end) in *.
     set (force := match m with Force => true | _ => false end) in *.
     assert (Eup : (if force then (false, s) else uptodate v (dry || v_safe v) now s t)
